@@ -15,7 +15,7 @@ def Params.OK (P : Params) : Prop := 2 ≤ P.defaultM ∧ P.defaultM ≤ P.minK
 /-- pure bookkeeping of `levels_`, `num_levels_`, `items_size_` -/
 structure LevelsOK (k m numLevels : Nat) (levels : List Nat) (itemsSize : Nat) : Prop where
   nl : 1 ≤ numLevels
-  len : numLevels + 1 ≤ levels.length
+  len : levels.length = numLevels + 1
   mono : ∀ i, i < numLevels → levels.getD i 0 ≤ levels.getD (i + 1) 0
   top : levels.getD numLevels 0 = itemsSize
   cap : itemsSize = computeTotalCapacity k m numLevels
